@@ -260,6 +260,16 @@ var reBound = regexp.MustCompile(`(^|[^A-Za-z0-9_])q_[A-Za-z0-9_]*!\d+`)
 
 func (e *Exec) heapGet(st *State, key, sort string) string {
 	if t, ok := st.heap[key]; ok {
+		if strings.HasPrefix(t, "\x00gen:") {
+			// preserved across a havoc while its sort was unknown: the value it had in that generation
+			var n int
+			fmt.Sscanf(t[len("\x00gen:"):], "%d", &n)
+			if old, ok := e.keySort[key]; ok && old != sort {
+				panic(fmt.Sprintf("heap key %s: sort %s vs %s", key, old, sort))
+			}
+			e.keySort[key] = sort
+			return e.genSym(n, key, sort)
+		}
 		if strings.HasPrefix(t, "\x00pending:") {
 			name := sym("Hp_" + t[len("\x00pending:"):])
 			e.once("pend:"+name, func() { e.emit("(declare-const " + name + " " + sort + ")") })
@@ -500,6 +510,17 @@ func (e *Exec) mergeStates(conds []string, states []*State) *State {
 	for _, k := range ks {
 		srt, known := e.keySort[k]
 		if !known {
+			// preserved with unknown sort in every branch alike: still preserved
+			m0, all := states[0].heap[k], strings.HasPrefix(states[0].heap[k], "\x00gen:")
+			for _, s := range states[1:] {
+				if s.heap[k] != m0 {
+					all = false
+				}
+			}
+			if all {
+				out.heap[k] = m0
+				continue
+			}
 			// havocked but never read so far (sort unknown): any fresh value will do
 			e.pendingHavoc(out, k)
 			continue
